@@ -26,6 +26,10 @@ pub struct CrashCase {
     /// the first connection attempt after the restore is refused (failing CONNACK, transport closed) before the resume
     #[serde(default)]
     pub refused_first: bool,
+    /// v5.0: the peer announces at the resuming handshake a Maximum Packet Size of (largest exported packet + this), i.e.
+    /// every exported packet still fits - exactly, or with one byte to spare - and must be retransmitted
+    #[serde(default)]
+    pub mps_fit: Option<u8>,
 }
 
 pub fn profile() -> Profile {
@@ -66,8 +70,8 @@ fn suffix_op() -> BoxedStrategy<Op> {
 pub fn strategy() -> BoxedStrategy<CrashCase> {
     let cfgs = (proptest::sample::select(vec![Role::Client, Role::Server, Role::Any]), proptest::sample::select(vec![CVer::V311, CVer::V5]), prop_oneof![4 => Just(2usize), 1 => Just(4usize)])
         .prop_map(|(role, ver, idw)| ConnCfg { role, ver, idw });
-    cfgs.prop_flat_map(|cfg| (history_for(profile(), cfg, no_hostile()), proptest::collection::vec(suffix_op(), 0..14), proptest::option::of(1u16..4), prop_oneof![2 => Just(vec![]), 1 => proptest::collection::vec((any::<u16>(), any::<u16>(), 0u8..2), 1..4)], prop_oneof![3 => Just(false), 1 => Just(true)]))
-        .prop_map(|(mut h, suffix, rm, pollute, refused_first)| {
+    cfgs.prop_flat_map(|cfg| (history_for(profile(), cfg, no_hostile()), proptest::collection::vec(suffix_op(), 0..14), proptest::option::of(1u16..4), prop_oneof![2 => Just(vec![]), 1 => proptest::collection::vec((any::<u16>(), any::<u16>(), 0u8..2), 1..4)], prop_oneof![3 => Just(false), 1 => Just(true)], prop_oneof![2 => Just(None), 2 => Just(Some(0u8)), 1 => Just(Some(1u8))]))
+        .prop_map(|(mut h, suffix, rm, pollute, refused_first, mps_fit)| {
             // persistent sessions only: every handshake of the history asks for a kept session
             for op in h.ops.iter_mut() {
                 match op {
@@ -81,14 +85,14 @@ pub fn strategy() -> BoxedStrategy<CrashCase> {
                     _ => {}
                 }
             }
-            CrashCase { h, suffix, rm, only_prefix: None, pollute, refused_first }
+            CrashCase { h, suffix, rm, only_prefix: None, pollute, refused_first, mps_fit }
         })
         .boxed()
 }
 
-fn resume_ops(as_client: bool, v5: bool, rm: Option<u16>) -> Vec<Op> {
-    let ca = ConnectArgs { clean: false, keep_alive: 0, p: HsProps { sei: if v5 { Some(300) } else { None }, rm: if !as_client { rm } else { None }, ..Default::default() } };
-    let ka = ConnackArgs { sp: true, fail: 0, p: HsProps { rm: if as_client { rm } else { None }, ..Default::default() } };
+fn resume_ops(as_client: bool, v5: bool, rm: Option<u16>, mps: Option<u32>) -> Vec<Op> {
+    let ca = ConnectArgs { clean: false, keep_alive: 0, p: HsProps { sei: if v5 { Some(300) } else { None }, rm: if !as_client { rm } else { None }, mps: if !as_client { mps } else { None }, ..Default::default() } };
+    let ka = ConnackArgs { sp: true, fail: 0, p: HsProps { rm: if as_client { rm } else { None }, mps: if as_client { mps } else { None }, ..Default::default() } };
     if as_client {
         vec![Op::Connect(ca), Op::PeerConnack(ka)]
     } else {
@@ -202,7 +206,14 @@ fn crash_at(c: &CrashCase, k: usize, st: &mut Stats) -> R {
         }
     }
     // ---- reconnect with the session present
-    let mut hs = resume_ops(if cfg.role == Role::Any { as_client || x.t.conn_seq == 0 } else { cfg.role == Role::Client }, v5, c.rm);
+    let mps: Option<u32> = match (v5, c.mps_fit, stored.iter().map(|a| crate::refcodec::encode(a, cfg.idw).len()).max()) {
+        (true, Some(d), Some(largest)) => {
+            st.class("resume_limit_at_largest_exported_packet");
+            Some((largest + d as usize) as u32)
+        }
+        _ => None,
+    };
+    let mut hs = resume_ops(if cfg.role == Role::Any { as_client || x.t.conn_seq == 0 } else { cfg.role == Role::Client }, v5, c.rm, mps);
     let y_as_client = matches!(hs[0], Op::Connect(_));
     if c.refused_first {
         // a refused attempt (the server answers with a failing CONNACK, the transport is closed) does not touch the session
@@ -262,8 +273,8 @@ fn crash_at(c: &CrashCase, k: usize, st: &mut Stats) -> R {
     }
     // ---- suffix
     let mut acked_restored = 0;
+    let mut still_handled: BTreeSet<u32> = handled.iter().cloned().collect();
     for op in &c.suffix {
-        let pre_handled: BTreeSet<u32> = y.c.qos2_handled().into_iter().collect();
         y.exec(op);
         let sy = y.steps.last().unwrap().clone();
         check_wire("C16", &sy, cfg.idw)?;
@@ -289,9 +300,24 @@ fn crash_at(c: &CrashCase, k: usize, st: &mut Stats) -> R {
         }
         // duplicates of QoS2 messages notified before the crash stay suppressed
         if let Call::Recv { ap: Some(AP::Publish { qos: 2, pid: Some(id), .. }), .. } = &sy.call {
-            if handled.contains(id) && pre_handled.contains(id) && !sy.has_error() && sy.recvs().iter().any(|a| matches!(a, AP::Publish { .. })) {
+            if still_handled.contains(id) && !sy.has_error() && sy.recvs().iter().any(|a| matches!(a, AP::Publish { .. })) {
                 return Err(fail("C16.q2_dup_notified", v.name(), format!("QoS2 PUBLISH id {id} was notified before the crash (exported as handled) but was notified again after restore")));
             }
+        }
+        // the exported handled set, carried forward by what happens after the resume (independent of the object's own set):
+        // a received PUBREL or an error PUBREC sent by the application ends the exchange, the next PUBLISH with that id is new
+        match &sy.call {
+            Call::Recv { ap: Some(AP::Ack { kind: AckKind::Pubrel, pid, .. }), .. } => {
+                still_handled.remove(pid);
+            }
+            Call::Send(AP::Ack { kind: AckKind::Pubrec, pid, rc: Some(rc), .. }) if *rc >= 0x80 => {
+                still_handled.remove(pid);
+            }
+            _ => {}
+        }
+        if sy.has_error() && sy.sends().iter().any(|a| matches!(a, AP::Disconnect { .. })) || y.t.close_requested {
+            // the connection is going down: nothing more is decided by this rule
+            still_handled.clear();
         }
         if let Some(zw) = z.as_mut() {
             zw.exec(op);
@@ -373,7 +399,7 @@ fn malformed(st: &mut Stats) -> R {
                 }
                 // the object still works: handshake and one publish
                 let as_client = role != Role::Server;
-                for op in resume_ops(as_client, v == V::V5, None) {
+                for op in resume_ops(as_client, v == V::V5, None, None) {
                     w.exec(&op);
                 }
                 w.exec(&Op::Publish { qos: 1, topic: 0, alias: AliasMode::None, plen: 0, retain: false, id: IdSrc::Acquire });
